@@ -180,6 +180,15 @@ class SpecState(object):
         q, p = Num.lift(q), Num.lift(p)
         return Num(comm_f(fn.term, q.real(), p.real()), q._nan_or(p), False)
 
+    def dataval(self, data, node):
+        from .heap import dataval_f, dataval_nan_f, Opt
+
+        d = data.val if isinstance(data, Opt) else data
+        if d is None or not hasattr(d, "term"):  # eagerly evaluated operand of a guarded (untaken) branch
+            return Num.lift(0.0)
+        nm = self.heap.get(node, "name")
+        return Num(dataval_f(d.term, nm.term), dataval_nan_f(d.term, nm.term), False)
+
     def idx(self, node, date):
         d = Num.lift(date)
         return Num(idx_f(d.r), False, True)
